@@ -48,6 +48,8 @@ pub trait Probe: Send + Sync {
     fn after(&self, _call: Call) -> Option<anyhow::Error> {
         None
     }
+    /// which client a transaction is opened for
+    fn on_txn(&self, _client: Uuid) {}
 }
 
 pub struct NoProbe;
@@ -60,8 +62,13 @@ pub struct Counter {
     pub calls: AtomicU64,
     /// calls that can change stored state (new_client, set_snapshot, add_version, commit)
     pub writes: AtomicU64,
+    /// client ids of the transactions opened
+    pub clients: std::sync::Mutex<Vec<Uuid>>,
 }
 impl Probe for Counter {
+    fn on_txn(&self, client: Uuid) {
+        self.clients.lock().unwrap().push(client);
+    }
     fn before(&self, call: Call) -> Option<anyhow::Error> {
         if call == Call::Txn {
             self.txns.fetch_add(1, Ordering::SeqCst);
@@ -122,6 +129,7 @@ struct InstTxn<'a> {
 
 impl Storage for Inst {
     fn txn(&self, client_id: Uuid) -> anyhow::Result<Box<dyn StorageTxn + '_>> {
+        self.probe.on_txn(client_id);
         if let Some(e) = self.probe.before(Call::Txn) {
             return Err(e);
         }
